@@ -122,7 +122,7 @@ def check_program(ctx: Ctx, init: FuncInfo):
 
 def check_oraclize(ctx: Ctx, fi: FuncInfo):
     # source of the generated oracle: `return <callee>(v) == <element>`
-    fs = [n for n in walk_no_nested(fi.node) if isinstance(n, ast.Assign) and isinstance(n.value, ast.JoinedStr)]
+    fs = [n for n in walk_no_nested(fi.node) if isinstance(n, ast.Assign) and isinstance(n.value, ast.JoinedStr) and any(isinstance(v, ast.Constant) and "def " in str(v.value) for v in n.value.values)]
     if len(fs) != 1:
         raise AnchorError(fi.short, "generated oracle source not found")
     txt = norm(fs[0].value)
